@@ -4,13 +4,13 @@
 //   alloc <lenB> <addrspec> <flags>           -> alloc <rc> <addr> <len> <fsize> bm=<bmoff>,<bmlen>
 //   dealloc #j [<s> <n>]                      -> dealloc <rc> <addr> <len>      (whole live region j, or n blocks from block s)
 //   rawdealloc <addrspec> <lenB>              -> rawdealloc <rc>
-//   realloc #j <nlenB> <flags>                -> realloc <rc> <addr> <len> pat=ok|bad bm=<bmoff>,<bmlen>
+//   realloc #j <nlenB> <flags>                -> realloc <rc> <oaddr> <olen> <addr> <len> pat=ok|bad bm=<bmoff>,<bmlen>
 //   rawrealloc <addrspec> <olenB> <nlenB> <flags> -> rawrealloc <rc> <addr> <len>
 //   status <addrspec> <lenB|=> <0|1>          -> status <rc>
 //   check                                     -> st bmoff= bmlen= lf= fsize= crz= tree= runs= live=
 //   sync | reopen | clear <trim>
 //   scan next|prev <hexwords> <off> <lim> | ffs <n> | rev <n> | load <hexbytes>      (unit ops, no file needed)
-// addrspec: N | #j | #j+N | bm+N | end+N     (#j = j-th live region modulo the number of live regions)
+// addrspec: N | #j | #j+N | #j-N | bm+N | end+N     (#j = j-th live region modulo the number of live regions)
 #include "iwfsmfile.c"   // file-static functions and struct fsm (the library object iwfsmfile.o is left out at link time)
 #include "hx.h"
 #include <sys/stat.h>
@@ -91,8 +91,8 @@ static off_t pat_check(off_t addr, off_t len, uint8_t pid) {
 
 static off_t addrspec(const char *w) {
   struct fsm *fsm = F.impl;
-  const char *plus = strchr(w, '+');
-  off_t add = plus ? strtoll(plus + 1, 0, 10) : 0, base;
+  const char *plus = strchr(w, '+'), *minus = strchr(w, '-');
+  off_t add = plus ? strtoll(plus + 1, 0, 10) : minus ? -strtoll(minus + 1, 0, 10) : 0, base;
   if (w[0] == '#') base = nlive ? live[strtoull(w + 1, 0, 10) % nlive].addr : 0;
   else if (!strncmp(w, "bm", 2)) base = fsm->bmoff;
   else if (!strncmp(w, "end", 3)) base = (off_t) ((fsm->bmlen * 8) << fsm->bpow);
@@ -211,13 +211,17 @@ int main(int argc, char **argv) {
       int i = (int) (strtoull(w[1] + 1, 0, 10) % nlive);
       struct live r = live[i];
       off_t addr = r.addr, len = r.len;
+      // without pattern bytes the old region may lie past EOF; make it file-backed first (copying from past EOF is C12's subject)
+      if (!cfg.pat) ((struct fsm*) F.impl)->pool.ensure_size(&((struct fsm*) F.impl)->pool, r.addr + r.len);
       iwrc rc = F.reallocate(&F, strtoll(w[2], 0, 10), &addr, &len, (iwfs_fsm_aflags) atoi(w[3]));
       struct fsm *fsm = F.impl;
-      if (rc) printf("realloc %s %lld %lld pat=ok bm=%" PRIu64 ",%" PRIu64 "\n", rcname(rc), (long long) r.addr, (long long) r.len, fsm->bmoff, fsm->bmlen);
+      if (rc) printf("realloc %s %lld %lld %lld %lld pat=ok bm=%" PRIu64 ",%" PRIu64 "\n", rcname(rc), (long long) r.addr, (long long) r.len, (long long) r.addr, (long long) r.len, fsm->bmoff, fsm->bmlen);
       else {
         off_t keep = len < r.len ? len : r.len;
+        // a region allocated without SOLID need not be file-backed yet: extend the file before reading the bytes back
+        if (cfg.pat && len > 0) ((struct fsm*) F.impl)->pool.ensure_size(&((struct fsm*) F.impl)->pool, addr + len);
         off_t bad = pat_check(addr, keep, r.pid);
-        printf("realloc 0 %lld %lld pat=%s bm=%" PRIu64 ",%" PRIu64 "\n", (long long) addr, (long long) len, bad < 0 ? "ok" : "bad", fsm->bmoff, fsm->bmlen);
+        printf("realloc 0 %lld %lld %lld %lld pat=%s bm=%" PRIu64 ",%" PRIu64 "\n", (long long) r.addr, (long long) r.len, (long long) addr, (long long) len, bad < 0 ? "ok" : "bad", fsm->bmoff, fsm->bmlen);
         if (len == 0) { memmove(&live[i], &live[i + 1], sizeof(live[0]) * (nlive - i - 1)); nlive--; }
         else { live[i].addr = addr; live[i].len = len; pat_fill(&live[i]); }
       }
